@@ -46,7 +46,7 @@ def definition_holds(out, data, W):
 def run(ctx):
     from fast_ticc import data_preparation as dp
     rng = np.random.default_rng(ctx.seed)
-    ctx.proof_layer(allowed_axioms=())
+    ctx.proof_layer(allowed_axioms=(), coq_deps=["Corr/RunStacking"])
     cov = core.LineCoverage()
     with cov:
         # ---- stream 1: single series shapes
@@ -169,7 +169,7 @@ def run(ctx):
             continue
         for c, a, b in zip(cases, mh, ih):
             if a != b:
-                ctx.violation("tie", "model and implementation disagree on %s case %s" % (stream, c,),
+                ctx.tie_mismatch("Stacking." + stream, "model and implementation disagree on %s case %s" % (stream, c,),
                               {"stream": stream, "case": c, "model_hash": a, "impl_hash": b})
                 break
     return ctx.finish(RULE)
